@@ -2,10 +2,10 @@
 # tools/wave.sh <property> <pkgdir> <budget> <test packages...>: confirm and run every wave-2 mutant of a property
 pid=$1; pkg=$2; budget=$3; shift 3
 for m in m1 m2 m3; do
-  [ -f /tmp/mut/$pid/out2/$m.diff ] || continue
+  [ -f /tmp/mut/$pid/${WAVE:-out2}/$m.diff ] || continue
   echo "######## $pid wave2 $m"
   p=$pkg
   # a demo may live in another package: take the directory named in the diff if the demo says so
-  OUT=out2 /verif/tools/confirm_seeded.sh $pid $m $p "$@" 2>&1 | grep "^ok\|^FAIL\|PATCH\|^== " | tr '\n' ' '; echo
-  git -C /repo apply --check /tmp/mut/$pid/out2/$m.diff && WORKERS=16 /verif/tools/seeded.sh $pid /tmp/mut/$pid/out2/$m.diff $budget
+  OUT=${WAVE:-out2} /verif/tools/confirm_seeded.sh $pid $m $p "$@" 2>&1 | grep "^ok\|^FAIL\|PATCH\|^== " | tr '\n' ' '; echo
+  git -C /repo apply --check /tmp/mut/$pid/${WAVE:-out2}/$m.diff && WORKERS=16 /verif/tools/seeded.sh $pid /tmp/mut/$pid/${WAVE:-out2}/$m.diff $budget
 done
